@@ -139,6 +139,8 @@ def valid_tf(r: Rng, emin=-1000, emax=1000, allow_zero=True):
     c = r.below(12)
     if c == 0 and allow_zero:
         return (r.choice([0.0, -0.0]), r.choice([0.0, -0.0]))
+    emin = max(-1074, min(emin, 1023))
+    emax = min(1024, max(emax, emin + 1))
     e = r.rng(emin, emax - 1)
     hi = mant_exp(r, e)
     if POOL and r.below(4) == 0:
